@@ -1197,6 +1197,12 @@ def calc_whitening_matrix(cov_matrix: np.ndarray) -> np.ndarray:
     calc_decorrelation_matrix
     """
     L, V = np.linalg.eig(cov_matrix)
+    # For a repeated eigenvalue `eig` returns some basis of the eigenspace,
+    # which is not orthogonal in general (then W^H cov W is not the
+    # identity). Eigenspaces of a Hermitian matrix are mutually orthogonal,
+    # thus orthonormalizing the columns of V only mixes eigenvectors of the
+    # same eigenvalue: the columns of Q are still eigenvectors for L.
+    V = np.linalg.qr(V)[0]
     W = np.dot(V, np.diag(1. / (L**0.5)))
     return W
 
